@@ -1672,7 +1672,7 @@ class C20(OutcomeCheck):
 
 
 HOOK_COMMITS = ["8f72140"]
-FIX_COMMITS = ["4a97b3f", "e9415b5", "1d4f62f", "36c0d26", "7942235", "13413be", "756d098", "cac202b", "91a3e2b", "189e88b", "c0421c4", "4a05908"]
+FIX_COMMITS = ["4a97b3f", "e9415b5", "1d4f62f", "36c0d26", "7942235", "13413be", "756d098", "cac202b", "91a3e2b", "189e88b", "c0421c4", "4a05908", "01ecff8"]
 NOT_CLAIMED = {}
 REGISTRY = {"C14": C14(), "C01": C01(), "C05": C05(), "C07": C07(), "C08": C08(), "C09": C09(),
             "C10": C10(), "C11": C11(), "C18": C18(), "C12": C12(), "C15": C15(), "C19": C19(), "C13": C13(), "C06": C06(), "C16": C16(), "C02": C02(), "C03": C03(), "C04": C04(), "C17": C17(), "C20": C20()}
